@@ -36,12 +36,10 @@ pub(crate) fn simple_selectors(
         return Err(("$selector: expected selector.", args.span()).into());
     }
 
-    let compound = if let Some(ComplexSelectorComponent::Compound(compound)) =
-        selector.0.components[0].components.first().cloned()
-    {
-        compound
-    } else {
-        todo!()
+    // a compound selector is a single complex selector made of exactly one compound
+    let compound = match selector.0.components[0].components.as_slice() {
+        [ComplexSelectorComponent::Compound(compound)] => compound.clone(),
+        _ => return Err(("$selector: expected selector.", args.span()).into()),
     };
 
     Ok(Value::List(
